@@ -800,3 +800,59 @@ Example init_group_example_errors :
   init_group_gen ex_contracts (mkGroupConfigGroup "op" [mkGroupConfigTransaction "d" "txn" None None (Some (mkGroupConfigFunctionCall "ls" "g")) None None]) = Raise E_function /\
   init_group_gen ex_contracts (mkGroupConfigGroup "op" [mkGroupConfigTransaction "d" "Pay" None None None None None]) = Raise EKeyError.
 Proof. repeat split; vm_compute; reflexivity. Qed.
+
+(* ====================================================================== *)
+(* 10. The from_yaml readers (regenerated; pinned on concrete typed entries)*)
+(* ====================================================================== *)
+Definition yrel (oid : string) (off : Z) : yv := YMap [("other_txn_id", YStr oid); ("offset", YInt off)].
+Definition ycall (c f : string) : yv := YMap [("contract", YStr c); ("function", YStr f)].
+Definition ex_yaml_a : list (string * yv) :=
+  [("txn_id", YStr "a"); ("txn_type", YStr "pay"); ("logic_sig", ycall "ls" "f"); ("absolute_index", YInt 1);
+   ("relative_indexes", YList [yrel "b" 1; yrel "c" 2; yrel "b" 3])].
+Definition ex_yaml_c : list (string * yv) :=
+  [("txn_id", YStr "c"); ("txn_type", YStr "appl"); ("application", ycall "app" "g"); ("has_logic_sig", YBool false)].
+
+(* relative_indexes is keyed by other_txn_id: the later offset for "b" replaces the earlier one in place *)
+Example from_yaml_example :
+  GroupConfigTransaction_from_yaml_gen ex_yaml_a =
+    Ok (mkGroupConfigTransaction "a" "pay" None None (Some (mkGroupConfigFunctionCall "ls" "f")) (Some 1%Z) (Some [("b", 3%Z); ("c", 2%Z)])) /\
+  GroupConfigTransaction_from_yaml_gen ex_yaml_c =
+    Ok (mkGroupConfigTransaction "c" "appl" (Some (mkGroupConfigFunctionCall "app" "g")) (Some false) None None None) /\
+  GroupConfigGroup_from_yaml_gen [("operation", YStr "op"); ("transactions", YList [YMap ex_yaml_a; YMap ex_yaml_c])] =
+    Ok (mkGroupConfigGroup "op"
+          [mkGroupConfigTransaction "a" "pay" None None (Some (mkGroupConfigFunctionCall "ls" "f")) (Some 1%Z) (Some [("b", 3%Z); ("c", 2%Z)]);
+           mkGroupConfigTransaction "c" "appl" (Some (mkGroupConfigFunctionCall "app" "g")) (Some false) None None None]).
+Proof. repeat split; vm_compute; reflexivity. Qed.
+
+Example from_yaml_example_errors :
+  GroupConfigTransaction_from_yaml_gen [("txn_id", YStr "a"); ("txn_type", YStr "Pay")] =
+    Raise (EInvalid "Transaction: Unknown transaction type {} of transaction {}") /\
+  GroupConfigTransaction_from_yaml_gen [("txn_type", YStr "pay")] =
+    Raise (EInvalid "Transaction:\n\nFollowing Required fields are absent: {}") /\
+  GroupConfigTransaction_from_yaml_gen [("txn_id", YStr "a"); ("txn_type", YStr "pay"); ("relative_indexes", YList [YMap [("other_txn_id", YStr "b")]])] =
+    Raise (EInvalid "Transaction: {}\n\nFollowing Required fields are absent in relative_indexes: {}") /\
+  GroupConfigTransaction_from_yaml_gen [("txn_id", YStr "a"); ("txn_type", YStr "pay"); ("application", YMap [("contract", YStr "c")])] =
+    Raise (EInvalid "Function call:\n\nFollowing Required fields are absent: {}") /\
+  GroupConfigTransaction_from_yaml_gen [("txn_id", YStr "a"); ("txn_type", YStr "pay"); ("absolute_index", YStr "1")] = Raise ETypeError /\
+  GroupConfigGroup_from_yaml_gen [("operation", YStr "op")] = Raise (EInvalid "Group:\n\nFollowing Required fields are absent: {}").
+Proof. repeat split; vm_compute; reflexivity. Qed.
+
+(* DISCREPANCY between the configuration file format and the model's request format.  The model (Model/Group.v g_rel,
+   ocaml/main.ml) lists (offset, id) pairs and keeps the LAST pair per OFFSET; the YAML reader first keeps the last
+   offset per ID.  On a listing that names one id twice the two readings differ: here the model reads
+   a -> {1: b, 2: b}, tealer reads a -> {2: c}. *)
+Definition ex_yaml_dup : list (string * yv) :=
+  [("txn_id", YStr "a"); ("txn_type", YStr "pay"); ("relative_indexes", YList [yrel "b" 1; yrel "c" 2; yrel "b" 2])].
+Theorem yaml_rel_model_refuted :
+  exists e, GroupConfigTransaction_from_yaml_gen ex_yaml_dup = Ok e /\
+            g_rel (cfg_gtxn [] e) = [(2%Z, "c")] /\
+            rel_dict (mkTxn "a" "Pay" false None None None [(1%Z, "b"); (2%Z, "c"); (2%Z, "b")]) = [(1%Z, "b"); (2%Z, "b")].
+Proof. eexists. split; [vm_compute; reflexivity|]. split; vm_compute; reflexivity. Qed.
+
+(* .. and agree when no id is listed twice (here: the listing of ex_yaml_a without its last pair) *)
+Example yaml_rel_model_agree :
+  exists e, GroupConfigTransaction_from_yaml_gen
+              [("txn_id", YStr "a"); ("txn_type", YStr "pay"); ("relative_indexes", YList [yrel "b" 1; yrel "c" 2; yrel "d" 1])] = Ok e /\
+            g_rel (cfg_gtxn [] e) = rel_dict (mkTxn "a" "Pay" false None None None [(1%Z, "b"); (2%Z, "c"); (1%Z, "d")]).
+Proof. eexists. split; vm_compute; reflexivity. Qed.
+Print Assumptions yaml_rel_model_refuted.
